@@ -136,82 +136,98 @@ Proof.
   fold st1 in D1, D2. rewrite D1, D2, P1, P2, app_length. cbn [length]. rewrite Nat.add_1_r. split; reflexivity.
 Qed.
 
+Definition tail_none {A} (l l' : list (option A)) : Prop := exists j, l' = l ++ repeat None j.
+Lemma tail_none_refl {A} (l : list (option A)) : tail_none l l.
+Proof. exists 0. cbn. rewrite app_nil_r. reflexivity. Qed.
+Lemma tail_none_trans {A} (a b c : list (option A)) : tail_none a b -> tail_none b c -> tail_none a c.
+Proof. intros [j ->] [k ->]. exists (j + k). rewrite <- app_assoc, repeat_app. reflexivity. Qed.
+
 Lemma step_quiet_leaves s o : quiet o = true ->
-  lpv (es (fst (step s o))) = lpv (es s) /\
-  exists j, lev (es (fst (step s o))) = lev (es s) ++ repeat None j.
+  tail_none (lpv (es s)) (lpv (es (fst (step s o)))) /\ tail_none (lev (es s)) (lev (es (fst (step s o)))).
 Proof.
-  intro Q. unfold step. destruct (valid_op s o); [|split; [reflexivity|exists 0; cbn; rewrite app_nil_r; reflexivity]].
-  destruct o; try discriminate; cbn [step_valid fst es with_es];
-    try (split; [reflexivity|exists 0; cbn; rewrite app_nil_r; reflexivity]).
-  - split; [reflexivity|exists 1; reflexivity].
+  intro Q. unfold step. destruct (valid_op s o); [|split; apply tail_none_refl].
+  destruct o; try discriminate; cbn [step_valid fst es with_es]; try (split; apply tail_none_refl).
+  - split; [exists 1; reflexivity|apply tail_none_refl].
+  - split; [apply tail_none_refl|exists 1; reflexivity].
   - destruct (eval_obj (es s) r) as [st1 x] eqn:H. cbn [fst es with_es].
-    destruct (eval_obj_frame _ _ _ _ H) as (A & B & _). rewrite A, B.
-    split; [reflexivity|exists 0; cbn; rewrite app_nil_r; reflexivity].
+    destruct (eval_obj_frame _ _ _ _ H) as (A & B & _). rewrite A, B. split; apply tail_none_refl.
 Qed.
 
 Lemma run_quiet_leaves : forall ops s, forallb quiet ops = true ->
-  lpv (es (fst (run s ops))) = lpv (es s) /\
-  exists j, lev (es (fst (run s ops))) = lev (es s) ++ repeat None j.
+  tail_none (lpv (es s)) (lpv (es (fst (run s ops)))) /\ tail_none (lev (es s)) (lev (es (fst (run s ops)))).
 Proof.
-  induction ops as [|o ops IH]; intros s Q; cbn [run].
-  - split; [reflexivity|exists 0; cbn; rewrite app_nil_r; reflexivity].
-  - cbn [forallb] in Q. apply andb_true_iff in Q as [Q1 Q2].
-    destruct (step s o) as [s1 d] eqn:H1. destruct (run s1 ops) as [s2 ds] eqn:H2. cbn [fst].
-    destruct (step_quiet_leaves s o Q1) as (A & j & B). rewrite H1 in A, B. cbn [fst] in A, B.
-    destruct (IH s1 Q2) as (A2 & j2 & B2). rewrite H2 in A2, B2. cbn [fst] in A2, B2.
-    split; [congruence|]. exists (j + j2). rewrite B2, B, <- app_assoc, repeat_app. reflexivity.
+  induction ops as [|o ops IH]; intros s Q; cbn [run]; [split; apply tail_none_refl|].
+  cbn [forallb] in Q. apply andb_true_iff in Q as [Q1 Q2].
+  destruct (step s o) as [s1 d] eqn:H1. destruct (run s1 ops) as [s2 ds] eqn:H2. cbn [fst].
+  destruct (step_quiet_leaves s o Q1) as (A & B). rewrite H1 in A, B. cbn [fst] in A, B.
+  destruct (IH s1 Q2) as (A2 & B2). rewrite H2 in A2, B2. cbn [fst] in A2, B2.
+  split; eapply tail_none_trans; eassumption.
+Qed.
+
+Lemma run_le : forall ops s, inv s -> le_st (es s) (es (fst (run s ops))).
+Proof.
+  induction ops as [|o ops IH]; intros s I; cbn [run]; [apply le_st_refl|].
+  destruct (step s o) as [s1 d] eqn:H1. destruct (run s1 ops) as [s2 ds] eqn:H2. cbn [fst].
+  pose proof (step_le s o (proj1 I)) as L1. pose proof (step_inv s o I) as I1. rewrite H1 in L1, I1. cbn [fst] in L1, I1.
+  eapply le_st_trans; [exact L1|]. change s2 with (fst (s2, ds)). rewrite <- H2. apply IH, I1.
 Qed.
 
 (** *** C13_fresh_partial.  [ops0]: any history.  Solve k = [Solve (Some sol)] in the state it
     produced.  Guard on the object [x]: no cache on it or on the expressions it refers to when the
-    solver is called.  After the solve and any further ops that neither solve nor create a leaf point:
-    [eval] returns the cache-free value of [x] over the leaf tables, and these are solution k
-    (column i of [sP] for leaf point i, entry i of [sF] for leaf expression i, nothing for leaves
-    created since). *)
+    solver is called.  After the solve and ANY further ops that do not solve (leaf points may be
+    created: repair e997f00): [eval] returns the cache-free value of [x] over the leaf tables, and
+    these are solution k (column i of [sP] for leaf point i, entry i of [sF] for leaf expression i,
+    nothing for leaves created since).  Only the empty combination is excluded (F-C02b: its null vector
+    has as many coordinates as there are leaf points at the time of its first evaluation). *)
 Theorem fresh_partial ops0 sol ops x o :
   let s := final ops0 in
   let n := length (lpv (es s)) in
   let s2 := fst (run (solve s (Some sol)) ops) in
   clean (es (prepare s)) x -> x < length (objs (es (solve s (Some sol)))) ->
   forallb quiet ops = true ->
-  get_obj (es s2) x = Some o ->
+  get_obj (es s2) x = Some o -> okind_of o <> KPoint [] ->
   snd (eval_obj (es s2) x) = pure_obj n (es s2) (okind_of o)
-  /\ lpv (es s2) = map (fun i => Some (column (sP sol) i)) (seq 0 n)
-  /\ exists j, lev (es s2) = map (fun i => Some (nth i (sF sol) 0%Q)) (seq 0 (S (length (lev (es s))))) ++ repeat None j.
+  /\ tail_none (map (fun i => Some (column (sP sol) i)) (seq 0 n)) (lpv (es s2))
+  /\ tail_none (map (fun i => Some (nth i (sF sol) 0%Q)) (seq 0 (S (length (lev (es s)))))) (lev (es s2)).
 Proof.
-  cbv zeta. intros C Hx Q Ho.
-  pose proof (final_inv ops0) as [Cl _].
+  cbv zeta. intros C Hx Q Ho Hne.
+  pose proof (final_inv ops0) as I0. pose proof I0 as [Cl _].
   pose proof (solve_leaves (final ops0) sol Cl) as [L1 L2].
   pose proof (fresh_after_solve (final ops0) sol x C) as G.
   assert (S1 : store_ok (es (solve (final ops0) (Some sol)))) by apply solve_store_ok, final_store_ok.
-  assert (Hn : length (lpv (es (final ops0))) = length (lpv (es (solve (final ops0) (Some sol)))))
-    by (rewrite L1, map_length, seq_length; reflexivity).
-  destruct (run_good _ ops _ x Q S1 Hn Hx G) as [G2 Hn2].
-  destruct (run_quiet_leaves ops (solve (final ops0) (Some sol)) Q) as (A & j & B).
-  split; [|split].
-  - destruct (eval_obj (es (fst (run (solve (final ops0) (Some sol)) ops))) x) as [st' v] eqn:E. cbn [snd].
-    eapply eval_obj_value; [exact E|exact Ho|exact G2|]. intros. exact Hn2.
-  - rewrite A. exact L1.
-  - exists j. rewrite B, L2. reflexivity.
+  assert (I1 : inv (solve (final ops0) (Some sol))).
+  { pose proof (step_inv (final ops0) (Solve (Some sol)) I0) as H. exact H. }
+  pose proof (run_le ops _ I1) as Lr.
+  assert (N1 : nonempty (es (solve (final ops0) (Some sol))) x).
+  { intros o1 Ho1. destruct Lr as (Lr & _). destruct (Lr x o1 Ho1) as (o' & Ho' & Hk').
+    rewrite Ho in Ho'. injection Ho' as <-. rewrite <- Hk'. exact Hne. }
+  destruct (run_good (length (lpv (es (final ops0)))) ops _ x Q S1 N1 Hx G) as [G2 N2].
+  destruct (run_quiet_leaves ops (solve (final ops0) (Some sol)) Q) as (A & B).
+  rewrite L1 in A. rewrite L2 in B.
+  split; [|split; assumption].
+  destruct (eval_obj (es (fst (run (solve (final ops0) (Some sol)) ops))) x) as [st' v] eqn:E. cbn [snd].
+  eapply eval_obj_value; [exact E|exact Ho|exact G2|]. intros Hk. exfalso. apply Hne, Hk.
 Qed.
 
 (** objects built AFTER the solve (by the operators: a new derived point / expression has no cache and
     refers to nothing) are covered too *)
 Theorem fresh_new_object m s k ops o :
-  (forall e, In e (refs_of k) -> False) -> store_ok (es s) -> m = length (lpv (es s)) ->
+  (forall e, In e (refs_of k) -> False) -> k <> KPoint [] -> store_ok (es s) ->
   let x := length (objs (es s)) in
   let s2 := fst (run (with_es s (new_obj (es s) k)) ops) in
   forallb quiet ops = true -> get_obj (es s2) x = Some o ->
   snd (eval_obj (es s2) x) = pure_obj m (es s2) (okind_of o).
 Proof.
-  intros Hk S Hm. cbv zeta. intros Q Ho.
+  intros Hk Hne S. cbv zeta. intros Q Ho.
   assert (G : good m (new_obj (es s) k) (length (objs (es s)))).
   { apply clean_good. intros o0 H0. rewrite get_obj_new_obj_last in H0. injection H0 as <-. cbn.
     split; [reflexivity|]. intros r' Hin. exfalso. eapply Hk, Hin. }
   assert (S1 : store_ok (new_obj (es s) k)) by (apply store_ok_new_obj; [exact S|intros e He; exfalso; eapply Hk, He]).
-  destruct (run_good m ops (with_es s (new_obj (es s) k)) (length (objs (es s))) Q S1 Hm) as [G2 Hn2].
+  assert (N1 : nonempty (new_obj (es s) k) (length (objs (es s)))).
+  { intros oy Hoy. rewrite get_obj_new_obj_last in Hoy. injection Hoy as <-. exact Hne. }
+  destruct (run_good m ops (with_es s (new_obj (es s) k)) (length (objs (es s))) Q S1 N1) as [G2 N2].
   - cbn [es with_es]. rewrite length_new_obj. lia.
   - exact G.
   - destruct (eval_obj _ _) as [st' v] eqn:E. cbn [snd].
-    eapply eval_obj_value; [exact E|exact Ho|exact G2|]. intros. exact Hn2.
+    eapply eval_obj_value; [exact E|exact Ho|exact G2|]. intros Hk0. exfalso. apply (N2 o Ho Hk0).
 Qed.
